@@ -14,8 +14,9 @@ LEVEL = ('enumerates every narrow integer operation (i32 / unsigned products, su
          'dominating comparison), every other site must be in the committed table arith_sites.json as '
          'SAFE(bound argument) or FINDING(failing input). A new or changed unguarded operation is '
          'reported. Narrowing casts of signed 64/128-bit quantities are sites wherever they occur in '
-         'the library (also in the trailed storage the propagators keep their sums in). Does not '
-         'decide that results equal unbounded arithmetic when no site overflows')
+         'the library (also in the trailed storage the propagators keep their sums in). The narrowing '
+         'casts of the front ends (FlatZinc / DIMACS glue) are sites too. Does not decide that results'
+         ' equal unbounded arithmetic when no site overflows')
 TECHNIQUE = "static analysis: enumeration of arithmetic sites with operand provenance + guarded-subtraction / divisor rules over rustc MIR"
 
 SCOPE = ("/propagators/arithmetic/", "/propagators/element.rs", "/variables/affine_view.rs",
